@@ -54,6 +54,7 @@ class Rig:
         peer = addr or ("203.0.113.5", self._port)
         proto = hp.HAPServerProtocol(self.loop, self.driver.http_server.connections, self.driver)
         tr = FakeTransport(peer)
+        tr.protocol = proto
         proto.connection_made(tr)
         self.conns.append((proto, tr))
         return proto, tr
